@@ -184,8 +184,10 @@ func copyTable(src *stores.Mem, dst objects.Store, sum []byte) error {
 // Build creates both repositories.
 func Build(tp Topology) (*World, error) {
 	w := &World{T: tp, Uni: stores.NewMem()}
-	// one table per distinct Table value: 300 rows (2 blocks); the first block is shared by all,
-	// the second differs, so that the presence of a table is specific to the commits carrying it
+	// one table per distinct Table value: 300 rows (2 blocks); the second block is specific to the
+	// table (so that the presence of a table is specific to the commits carrying it), the first
+	// block comes in four variants (Table%4) shared between tables - a repository may hold a table
+	// without holding the first block of another one. Variant 3 ends its first block with an empty cell.
 	tableFor := map[int][]byte{}
 	d := gen.DAG{}
 	var err error
@@ -197,6 +199,12 @@ func Build(tp Topology) (*World, error) {
 				val := "x"
 				if r == 290 {
 					val = fmt.Sprintf("variant-%d", n.Table)
+				}
+				if r == 10 && n.Table%4 != 0 {
+					val = fmt.Sprintf("first-block-%d", n.Table%4)
+				}
+				if r == 254 && n.Table%4 == 3 {
+					val = ""
 				}
 				t.Rows = append(t.Rows, []gen.Cell{gen.Cell(fmt.Sprintf("k%05d", r)), gen.Cell(val)})
 			}
